@@ -150,6 +150,28 @@ func checkC35(c *Check) {
 		c.Ob("packet/writer-header-words", "WritePacketHeaderUnlocked", okW, pos, fmt.Sprintf("header words in order: %v (want len+overhead, writeSeqNum, type)", nat))
 		c.Ob("packet/writer-seqnum-once", "WritePacketHeaderUnlocked", strings.Count(txt, "assign item.writeSeqNum ++") == 1, pos, "writeSeqNum++ exactly once per header")
 		c.Ob("packet/writer-crc-covers-header", "WritePacketHeaderUnlocked", regexp.MustCompile(`assign item\.writeCRC = #0\n\s*call PacketConn\.updateWriteCRC recv=item\(\$\[\$:\]\)`).MatchString(txt), pos, "CRC restarts at 0 and accumulates the 12 header bytes")
+		// writer and reader must decide *when* a packet is padded by the same predicate: a writer that pads where the
+		// reader does not expect padding (or the reverse) shifts every later packet
+		alignGuard := func(ir *FuncIR) string {
+			g := ""
+			walkBlock(ir.Body, nil, func(n Node, _ []Guard) {
+				in, ok := n.(*IfN)
+				if !ok {
+					return
+				}
+				for _, t := range in.Then {
+					if as, isA := t.(*AssignN); isA && len(as.RHS) == 1 && strings.HasPrefix(as.RHS[0], "(-") && strings.HasSuffix(as.RHS[0], " & #3)") {
+						g = in.Cond.String()
+					}
+				}
+			})
+			return g
+		}
+		wg, rg := alignGuard(ir), ""
+		if rir := r.ir(P + "ReadPacketBodyUnlocked"); rir != nil {
+			rg = alignGuard(rir)
+		}
+		c.Ob("packet/alignment-decided-alike", "WritePacketHeaderUnlocked~ReadPacketBodyUnlocked", wg != "" && wg == rg, pos, fmt.Sprintf("writer pads under `%s`, reader expects padding under `%s`", wg, rg))
 		c.Ob("packet/writer-align-rule", "WritePacketHeaderUnlocked", strings.Contains(txt, "assign item.writeAlignTo4 = (-val2 & #3)"), pos, "alignment = -bodyLen & 3 when encrypted (same residue as the reader's -length & 3 because packetOverhead is a multiple of 4)")
 	}
 	if ir := r.ir(P + "WritePacketBodyUnlocked"); ir != nil {
